@@ -259,6 +259,27 @@ def serial_battery(J, s, bits, ic, key, realfile, only=None):
         J.unchanged('tofile:failing-sink', s, bits, ic, key)
 
 
+def _flip(s, i):
+    s[i] = not s[i]
+
+
+SER_MUTATE = {
+    'setitem0': lambda s: _flip(s, 0), 'setitem-1': lambda s: _flip(s, -1), 'setitem-mid': lambda s: _flip(s, len(s) // 2),
+    'del0': lambda s: s.__delitem__(0), 'del-1': lambda s: s.__delitem__(-1), 'delslice': lambda s: s.__delitem__(slice(1, 4)),
+    'invert-all': lambda s: s.invert(), 'invert-0': lambda s: s.invert(0), 'invert-list': lambda s: s.invert([0, -1]),
+    'reverse': lambda s: s.reverse(), 'reverse-part': lambda s: s.reverse(1, len(s)), 'append': lambda s: s.append('0b1'),
+    'prepend': lambda s: s.prepend('0b10'), 'set': lambda s: s.set(1, -1), 'set-all-0': lambda s: s.set(0), 'ror': lambda s: s.ror(1),
+    'rol': lambda s: s.rol(3), 'overwrite': lambda s: s.overwrite('0b1', 0), 'insert': lambda s: s.insert('0b01', 1),
+    'setslice': lambda s: s.__setitem__(slice(0, 2), '0b11'), 'setslice-step': lambda s: s.__setitem__(slice(None, None, 2), 1),
+    'byteswap': lambda s: s.byteswap(), 'ilshift': lambda s: s.__ilshift__(1), 'irshift': lambda s: s.__irshift__(2),
+    'imul': lambda s: s.__imul__(2) if len(s) < 600 else None, 'iand': lambda s: s.__iand__(Bits(len(s))), 'ior': lambda s: s.__ior__(~Bits(len(s))) if len(s) else None,
+    'ixor': lambda s: s.__ixor__(s), 'replace': lambda s: s.replace('0b1', '0b00', count=1), 'clear': lambda s: s.clear(),
+    'prop-uint': lambda s: setattr(s, 'uint', 1) if len(s) else None, 'prop-bin': lambda s: setattr(s, 'bin', '0110'),
+    'iadd': lambda s: s.__iadd__('0x0f'),
+}
+SER_MUTATIONS = sorted(SER_MUTATE)
+
+
 # ---- kind 'ser': tobytes / bytes() / .bytes / tofile of a bitstring ------------------------------------
 def build_ser(c):
     """Returns (object, path-to-remove)."""
@@ -315,6 +336,17 @@ def judge_ser(ctx, c):
         if not J.value('construct', call(lambda: (len(s), B(s))), (n, bits), ic, key, 'content'):
             return
         serial_battery(J, s, bits, ic, key, c.get('realfile', False))
+        for step, (mop, lsb0) in enumerate(c.get('hist') or ()):
+            # serialisation is a function of the bits the object holds NOW: nothing remembered from an earlier tobytes() may
+            # survive an in-place change (the change itself is C03's business; the bits are read back with .bin)
+            with util.options(lsb0=bool(lsb0)):
+                g = call(lambda: SER_MUTATE[mop](s))
+                now = call(lambda: B(s))
+                ctx.op('mutate-then-serialise:' + mop + (',lsb0' if lsb0 else ''), _outcome(g))
+                if now[0] != 'ok':
+                    break
+                serial_battery(J, s, now[1], ic + ',after-in-place-change' + (',lsb0' if lsb0 else ''), key + ('hist',), False,
+                               only=('tobytes', 'bytes()', 'tofile') if step % 2 else ('tobytes',))
         ctx.state('ser', c['cls'], n, route)
     finally:
         _rm(path)
@@ -783,6 +815,9 @@ def gen_ser(ctx, n=None, cls=None):
         c['prebits'], c['postbits'] = rb(rng, rng.choice([1, 3, 8, 13])), rb(rng, rng.choice([0, 1, 5, 8]))
     if cls in util.STREAMS and rng.random() < 0.5:
         c['pos'] = rng.randint(0, n)
+    if cls not in IMMUTABLE and n <= 4000 and rng.random() < 0.6:
+        # the object goes on living: serialised, changed in place (under either bit numbering), serialised again ...
+        c['hist'] = [[rng.choice(SER_MUTATIONS), rng.random() < 0.4] for _ in range(rng.choice([1, 2, 3, 5]))]
     return c
 
 
